@@ -525,6 +525,13 @@ func (tr *Tr) evalIndex(env *CEnv, x *CIndex) (Value, types.Type) {
 }
 
 func (tr *Tr) resolveCType(env *CEnv, ct CType) types.Type {
+	if ct.Key != nil {
+		var m types.Type = types.NewMap(tr.resolveCType(env, *ct.Key), tr.resolveCType(env, *ct.Elem))
+		if ct.Slice {
+			m = types.NewSlice(m)
+		}
+		return m
+	}
 	var base types.Type
 	if ct.Pkg == "" {
 		if obj := types.Universe.Lookup(ct.Name); obj != nil {
